@@ -230,7 +230,8 @@ def execute(cfg, steps, acc=None, trace=None):
         for i, (method, behaviour, seg, caller) in enumerate(steps):
             body = b"q" if method == "POST" else None
             pre = caller == "preload"
-            r = guard(i, "urlopen", lambda: pool.urlopen(method, "/r%d" % i, body=body, preload_content=pre))
+            ukw = {} if cfg.get("ecl", True) else {"enforce_content_length": False}
+            r = guard(i, "urlopen", lambda: pool.urlopen(method, "/r%d" % i, body=body, preload_content=pre, **ukw))
             if r is None:
                 continue
             every.append((i, r))
@@ -331,6 +332,8 @@ def _task(t):
         acc.outcomes[(st["sockets"], st["wire_requests"], st["reused"] > 0, st["poisoned"] > 0)] += 1
         for clause, sig, obs, exp in viols:
             s = {"maxsize": cfg["maxsize"], "retries": cfg["retries"]}
+            if not cfg.get("ecl", True):
+                s["enforce_content_length"] = False
             s.update(sig)
             acc.violation(clause, s, {"cfg": cfg, "steps": [list(x) for x in steps]}, observed=obs, expected=exp)
         if acc.n == 7:
@@ -341,6 +344,9 @@ def _task(t):
 def run(ctx):
     firsts = step_alphabet(False)
     cfgs2 = [dict(maxsize=m, retries=r) for m in (1, 2) for r in ("False", "1", "R3")]
+    # the per-request option enforce_content_length=False (a short body is handed over as it is): which connection may be
+    # reused does not depend on it
+    cfgs2.append(dict(maxsize=1, retries="1", ecl=False))
     tasks = [(c, f, 2) for c in cfgs2 for f in firsts]
     if ctx.thorough:
         cfgs3 = [dict(maxsize=1, retries="1"), dict(maxsize=2, retries="R3")]
@@ -356,7 +362,8 @@ def run(ctx):
         "histories": n,
         "step_alphabet": len(firsts), "last_step_alphabet": len(step_alphabet(True)),
         "rule": "all histories of 2 requests (thorough: + 3 requests on two pool shapes) over the step alphabet "
-                "(method x server behaviour x segmentation x caller behaviour) x pool shapes {maxsize 1,2} x retries {False,1,Retry(3)}; "
+                "(method x server behaviour x segmentation x caller behaviour) x pool shapes {maxsize 1,2} x retries {False,1,Retry(3)} "
+                "(+ one shape with enforce_content_length=False on every request); "
                 "non-trivial = a history in which some socket carried more than one request (connection reuse)",
     }
     ctx.finish("model_checking", acc, cov,
